@@ -574,6 +574,23 @@ def recombine_bytes(t):
     return simp(out)
 
 
+def _bv_binop(op, ta, tb):
+    """symbolic & / | of two non-negative terms bounded by 2**W: through bit-vectors of width W (exact)"""
+    c = ctx()
+    for w in (8, 16, 32, 64):
+        lim = 1 << w
+        la, ha = bounds(simp(ta))
+        lb, hb = bounds(simp(tb))
+        ok_a = (la is not None and ha is not None and la >= 0 and ha < lim) or c.is_true(z3.And(ta >= 0, ta < lim))
+        ok_b = (lb is not None and hb is not None and lb >= 0 and hb < lim) or c.is_true(z3.And(tb >= 0, tb < lim))
+        if ok_a and ok_b:
+            x, y = z3.Int2BV(ta, w), z3.Int2BV(tb, w)
+            r = z3.BV2Int(x & y if op == "&" else x | y, is_signed=False)
+            c.notes.append("bit-vector encoding of a symbolic bit operation")
+            return mk_int(r)
+    raise OutOfReach(f"symbolic {op} symbolic on unbounded operands")
+
+
 def int_and(a, b):
     if isinstance(a, int) and isinstance(b, int):
         return a & b
@@ -582,8 +599,10 @@ def int_and(a, b):
     ta = T(a)
     cb = const_of(T(b))
     if cb is None:
-        # symbolic & symbolic: only the shape x & (1 << k) style reaches here rarely
-        raise OutOfReach("symbolic & symbolic")
+        ca = const_of(ta)
+        if ca is not None:
+            return int_and(b, ca)
+        return _bv_binop("&", ta, T(b))
     if cb >= 0:
         lo_b, hi_b = bounds(simp(ta))
         if lo_b is not None and hi_b is not None and lo_b >= 0 and (cb & (cb + 1)) == 0 and hi_b <= cb:
@@ -605,7 +624,9 @@ def int_or(a, b):
         a, b = b, a
     cb = const_of(T(b))
     if cb is None:
-        raise OutOfReach("symbolic | symbolic")
+        if const_of(T(a)) is not None:
+            return int_or(b, const_of(T(a)))
+        return _bv_binop("|", T(a), T(b))
     if cb < 0:
         raise OutOfReach("| with negative constant")
     ta = T(a)
